@@ -86,6 +86,21 @@ def fam_C06(tier, seed):
             b.require(t, worker=w)
         b.con("ForceScheduleNOptionalTasks", tasks=ts, n=n, kind=kind)
         ps.append(b.done())
+    # precedence in every form, with an optional predecessor / successor
+    for kind, off, opts in itertools.product(("lax", "strict", "tight"), (0, 2), [(True, False), (False, True), (True, True)]):
+        b = PB(4, tag="opt-precedence-kinds")
+        a = b.task("A", "F", dur=1, optional=opts[0])
+        c = b.task("B", "F", dur=1, optional=opts[1])
+        b.con("TaskPrecedence", before=a, after=c, offset=off, kind=kind)
+        ps.append(b.done())
+    # single-task constraints on an optional task
+    for cls, kw in (("TaskStartAt", dict(value=5)), ("TaskEndAt", dict(value=0)), ("TaskStartAfter", dict(value=4, kind="strict")),
+                    ("TaskEndBefore", dict(value=0, kind="strict"))):
+        b = PB(3, tag="opt-" + cls)
+        a = b.task("A", "F", dur=1, optional=True)
+        b.task("B", "F", dur=1)
+        b.con(cls, task=a, **kw)   # cannot hold for a scheduled A: A must be left out, B keeps all its schedules
+        ps.append(b.done())
     # optional tasks under every two-task constraint and in groups
     for cls in ("TasksStartSynced", "TasksEndSynced", "TasksDontOverlap"):
         for opts in [(True, False), (True, True)]:
